@@ -27,7 +27,7 @@ class Polyline:
 
         """
         num_v = vg.shape.check(locals(), "v", (-1, 3))
-        v = np.copy(v)
+        v = np.array(v, dtype=self.POSITION_DTYPE)
         v.setflags(write=False)
         self.v = v
 
